@@ -724,7 +724,7 @@ def h_xh(ctx, fn, args):
         raise
     except Exception:                                       # noqa: BLE001
         ok = False
-    tag = [t for t in ("C05", "C10", "C13", "C17", "C18") if ctx.is_fatal(t + ".crosshair")]
+    tag = [t for t in ("C05", "C06", "C10", "C13", "C17", "C18") if ctx.is_fatal(t + ".crosshair")]
     ctx.require(bool(ok), (tag[0] if tag else "X") + ".crosshair", {"function": fn, "args": args})
 
 
